@@ -123,7 +123,7 @@ def jobs(tier: str):
         for dname, dtext, dinp in DEFS:
             local_first = dname == "local_first"
             for ename, etext, einp in EXTRAS:
-                if quick and ename != "none" and dname not in ("ub1", "sum1", "eq1"):
+                if quick and ename != "none" and dname not in ("ub1", "sum1", "eq1", "zero_sibling", "two_preds"):
                     continue
                 for uname, utext in USES:
                     sh = "sh(L,D)" if local_first else "sh(D,L)"
